@@ -1,0 +1,30 @@
+//go:build verif
+
+package pppoe
+
+import "time"
+
+// Verification hooks for property C16 (session teardown). Accessors and a clock-shift only;
+// compiled in only with -tags verif.
+
+// VerifC16Parts returns the session table and the client address pool of the server, so that a
+// SessionTeardown can be wired to the same objects the frame handlers use.
+func (s *Server) VerifC16Parts() (*SessionManager, *IPPool) { return s.sessions, s.clientIPPool }
+
+// VerifC16Age lets d of idle time pass for every session in the table (LastActivity moves back by d).
+func (m *SessionManager) VerifC16Age(d time.Duration) {
+	m.mu.Lock()
+	defer m.mu.Unlock()
+	for _, s := range m.sessions {
+		s.mu.Lock()
+		s.LastActivity = s.LastActivity.Add(-d)
+		s.mu.Unlock()
+	}
+}
+
+// VerifC16Idle reports how long the session has been idle.
+func (s *Session) VerifC16Idle() time.Duration {
+	s.mu.RLock()
+	defer s.mu.RUnlock()
+	return time.Since(s.LastActivity)
+}
